@@ -7,6 +7,8 @@ import Banyan.Lemmas.C09Merge
 import Banyan.Lemmas.C09Order
 import Banyan.Lemmas.C09Complete
 import Banyan.Lemmas.C09Dedup
+import Banyan.Lemmas.C09Writer
+import Banyan.Lemmas.C09Measure
 
 namespace Banyan.C09
 
@@ -332,6 +334,19 @@ theorem sidx_query_spec (r : Req) {snap : List Part} (wf : WF snap) (hs : r.sids
   refine ⟨hp, s1, ?_, e2, s2, e3⟩
   intro ref hr hsr
   exact sorted_perm_keys_unique Elem.key (elemLt_eq r.asc) (strictTotal_intLt r.asc) (hp.trans hr.symm) s1 hsr
+
+
+/-- `sidx_query_spec` for every modelled write/flush/merge history (the writer invariants are a theorem,
+    `applyOps_WF`, not a hypothesis). -/
+theorem sidx_query_spec_history (ops : List Op) (r : Req) (hs : r.sids.Nodup)
+    (hd : (((applyOps ops).flatMap Part.elems).map (·.data)).Nodup)
+    (h : (selectedBlocks r (applyOps ops)).length ≤ threshold r ∨ PairwiseDisjoint (selectedBlocks r (applyOps ops))) :
+    let out := (streamingQuery r (applyOps ops)).flatten
+    out.Perm (matching r (applyOps ops)) ∧ Sorted (elemLt r.asc) out ∧
+    (querySync r (applyOps ops)).flatten <+: out := by
+  intro out
+  have := sidx_query_spec r (applyOps_WF ops) hs hd h
+  exact ⟨this.1, this.2.1, this.2.2.2.1⟩
 
 /-! ### F11: the heap is drained completely for every scanner batch -/
 
@@ -756,6 +771,44 @@ theorem mmerge_eq (desc : Bool) (offset limit : Nat) (nodes : List (List DP)) :
 
 example : mmerge false 0 10 [[⟨1, 1, 1, 5⟩, ⟨3, 1, 1, 6⟩], [⟨1, 1, 2, 7⟩, ⟨2, 2, 1, 8⟩]]
     = [⟨1, 1, 2, 7⟩, ⟨2, 2, 1, 8⟩, ⟨3, 1, 1, 6⟩] := by decide
+
+
+/-! ## 6. measure `queryResult` (order by time) -/
+
+/-- **measure_pull_sorted.** Order by time: whatever is in the heap of block cursors (each cursor in
+    timestamp order), the rows handed out by successive `Pull()` calls – one series run per call, newer versions
+    replacing older ones – come in timestamp order in the requested direction over the *whole* result. -/
+theorem measure_pull_sorted (asc : Bool) (sids : List Nat) (h : List (Cursor MRow))
+    (hs : ∀ c ∈ h, Sorted (qrLt true asc sids) c.all) (fuel : Nat) :
+    (qrPullAll (qrLt true asc sids) fuel h).flatten.Pairwise (tsLe asc) :=
+  (qrPullAll_spec asc sids fuel h hs).1
+
+
+
+/-- **measure_query_sorted.** Order by time: for every set of parts (any duplicates of (series, timestamp)
+    with any versions inside and across parts), every series selection and time range, the rows returned by
+    the successive `Pull()` calls of the measure `queryResult` are in timestamp order in the requested
+    direction over the whole result. -/
+theorem measure_query_sorted (parts : List (List MRow)) (sids : List Nat) (minTS maxTS : Int) (asc : Bool) :
+    (measureQuery parts sids minTS maxTS true asc).flatten.Pairwise (tsLe asc) := by
+  unfold measureQuery
+  refine (qrPullAll_spec asc sids _ _ ?_).1
+  apply sorted_initHeap
+  intro it hit
+  obtain ⟨b, hb, rfl⟩ := List.mem_map.mp hit
+  have hb' := (List.mem_filter.mp hb).1
+  obtain ⟨p, _, hbp⟩ := List.mem_flatMap.mp hb'
+  exact cursor_sorted asc sids (measureBlocks_rows p b hbp) _
+
+/-- three cursors of two parts, duplicates of (series 1, timestamp 5) -/
+def pullEx : List (Cursor MRow) :=
+  [(⟨1, 7, 1, 11⟩, [⟨1, 5, 1, 10⟩]), (⟨2, 6, 1, 20⟩, []), (⟨1, 5, 2, 12⟩, []), (⟨2, 8, 1, 21⟩, [])]
+
+/-- non-vacuity of the hypothesis of `qrPullAll_spec` / `measure_pull_sorted` (descending) -/
+example : (∀ c ∈ pullEx, Sorted (qrLt true false [1, 2]) c.all) ∧
+    qrPullAll (qrLt true false [1, 2]) 10 pullEx = [[⟨2, 8, 1, 21⟩], [⟨1, 7, 1, 11⟩], [⟨2, 6, 1, 20⟩], [⟨1, 5, 2, 12⟩]] := by
+  unfold Sorted
+  decide
 
 
 end Banyan.C09
